@@ -22,7 +22,9 @@ RULE = ("Hypothesis draws well-formed definition closures (vlib.defgen.programs:
         "structs, host and module ids, nested structs and messages, arrays with literal and expression lengths, signals, field-list "
         "reuse, reserved ids, all three compiler options drawn), half of them forced to the 5-file skeleton so that cross-file use "
         "dominates; the classes that were tied to (now repaired) defects - alias-of-imported-struct, alias-of-imported-struct-field, "
-        "struct-contains-message, string-special, prefix-names - are enabled in every second program, singly and together.  "
+        "struct-contains-message, string-special, prefix-names - are enabled in every second program, singly and together; every shard starts "
+        "with hand-written covering programs (constants whose names contain one another - CHANS/CHANS_MAX, LEN/MAX_LEN, N1/N10 - used "
+        "together in expressions and array lengths; the 26 native names; long float constants).  "
         "Every program is compiled in-process; then: the Python module is imported in a pristine interpreter (a brand-new process for the "
         "first two programs of every shard, otherwise a fork of a process that has only imported pyrtma) and get_msg_cls(id) must be the "
         "class of every message; gcc -fsyntax-only must accept the header (closures that do not use core type names); node imports the "
@@ -232,6 +234,15 @@ def shard(seed, n, idx, quick):
             if len(res.samples) < 2:
                 res.sample({"shape": program.shape, "options": program.options, "classes": sorted(program.classes)[:24], "files": list(program.files)})
 
+        # covering programs (hand-written, every run): constants whose names contain one another, used together in
+        # constant expressions and array lengths; every native name, long float constants, nested arrays
+        from checks.c04 import covering_program, substring_program
+
+        for program in (substring_program(idx % 2 == 0), covering_program(idx % 2 == 1, idx % 2)) if idx < 4 else (substring_program(idx % 2 == 0),):
+            for key, what in run_case(E, program, res, fresh_py="fork"):
+                res.add_finding(key, what, {"key": key, "program": program.to_json()})
+            res.evaluations += 1
+            res.count("covering-programs")
         hyp_run(body, st_programs(), seed, n, res, collect=True)
     finally:
         E.close()
